@@ -112,9 +112,12 @@ SetCnt(nw, c, v) == IF v = Zero THEN [x \in (DOMAIN nw) \ {c} |-> nw[x]]
 Put(nw, c) == LET v == Cnt(nw, c) IN IF v.n + v.d < Cap THEN SetCnt(nw, c, [v EXCEPT !.n = @ + 1]) ELSE nw
 RECURSIVE PutAll(_, _)
 PutAll(nw, out) == IF out = <<>> THEN nw ELSE PutAll(Put(nw, Head(out)), Tail(out))
-Take(nw, c, k) == LET v == Cnt(nw, c) IN
+\* one copy leaves the network; marked = the replay window recorded its number (the twin of a "d" copy is stale then,
+\* otherwise - the copy was queued or dropped before the window was touched - the twin is an ordinary single again)
+Take(nw, c, k, marked) == LET v == Cnt(nw, c) IN
   SetCnt(nw, c, IF k = "n" THEN [v EXCEPT !.n = @ - 1]
-                ELSE IF k = "d" THEN [v EXCEPT !.d = @ - 1, !.s = IF ReplayCheck THEN @ + 1 ELSE @, !.n = IF ReplayCheck THEN @ ELSE @ + 1]
+                ELSE IF k = "d" THEN (IF marked /\ ReplayCheck THEN [v EXCEPT !.d = @ - 1, !.s = @ + 1]
+                                      ELSE [v EXCEPT !.d = @ - 1, !.n = @ + 1])
                 ELSE [v EXCEPT !.s = @ - 1])
 Has(c, k) == c \in DOMAIN net /\ (IF k = "n" THEN net[c].n > 0 ELSE IF k = "d" THEN net[c].d > 0 ELSE net[c].s > 0)
 \* payloads whose emission would be merged away by Cap (never happens for application records: each class is unique)
@@ -165,7 +168,8 @@ Ext(f, k, v) == [x \in (DOMAIN f) \cup {k} |-> IF x = k THEN v ELSE f[x]]
 RECURSIVE Drain(_, _)
 Drain(L, q) == IF q = <<>> THEN [L EXCEPT !.fq = <<>>]
                ELSE LET r == Head(q) IN
-                    Drain(IF Opens(L, r) # {} THEN [L EXCEPT !.dlv = Bump(@, r.p)] ELSE L, Tail(q))
+                    Drain(IF Opens(L, r) # {} /\ ~(ReplayCheck /\ r.p \in DOMAIN L.dlv)   \* twins queued twice: replay window
+                          THEN [L EXCEPT !.dlv = Bump(@, r.p)] ELSE L, Tail(q))
 
 Handle(e, X, r) ==
   LET L == X.L IN
@@ -229,23 +233,25 @@ Deliver(c, kind) ==
          op == Opens(L, c)
          cs == Cands(L, c) IN
      /\ ~L.fatal
-     /\ LET res == IF op # {}
+     /\ LET res == IF op # {} /\ c.t = "app" /\ ReplayCheck /\ c.p \in DOMAIN L.dlv     \* its twin went through the queue
+                   THEN [X |-> X0, how |-> "replay", x |-> 0]
+                   ELSE IF op # {}
                    THEN [X |-> Handle(e, X0, c), how |-> "accepted", x |-> CHOOSE x \in op : TRUE]
                    ELSE IF cs = {} /\ Low(c.ep) = Low(L.auth + 1) /\ c.t = "app" /\ Len(L.fq) < FutureCap
                    THEN [X |-> [X0 EXCEPT !.L.fq = Append(@, c)], how |-> "queued", x |-> 0]
                    ELSE [X |-> X0, how |-> IF cs = {} THEN "epoch" ELSE "decrypt", x |-> 0] IN
         /\ S' = [S EXCEPT ![e] = res.X.L]
-        /\ net' = PutAll(Take(net, c, kind), res.X.out)
+        /\ net' = PutAll(Take(net, c, kind, res.how = "accepted"), res.X.out)
         /\ Sealed(e, res.X.out)
         /\ lastRx' = IF Gen THEN [how |-> res.how] ELSE NoRx
         /\ rxBad' = (rxBad \/ (res.how = "accepted" /\ (res.x > L.auth \/ res.x \notin DOMAIN L.rkeys)))
-        /\ arrBad' = (arrBad \/ (c.t = "app" /\ c.p # CraftId /\ res.how # "accepted"))
+        /\ arrBad' = (arrBad \/ (c.t = "app" /\ c.p # CraftId /\ res.how \notin {"accepted", "replay"}))
   /\ UNCHANGED <<drops, dups, timers, pays, wr, lost, crafted, calls>>
 
 \* a stale twin arrives: the replay window of its epoch drops it before any content handling
 DeliverStale(c) ==
   /\ Has(c, "s")
-  /\ net' = Take(net, c, "s")
+  /\ net' = Take(net, c, "s", TRUE)
   /\ lastRx' = IF Gen THEN [how |-> "replay"] ELSE NoRx
   /\ lastOut' = <<>>
   /\ UNCHANGED <<rxBad, arrBad, S, drops, dups, timers, pays, wr, lost, crafted, calls, hiSeal, sealDecr>>
